@@ -62,6 +62,12 @@ def run(cx):
         ok = len(sets) == 1 and len(mvs) == 1 and match('(field params (param self))', cx.arg(sets[0], 0)) is not None and match('(param x)', cx.arg(sets[0], 1)) is not None
         ok = ok and sp.dominates(sets[0].bb, mvs[0].bb) and all(sp.dominates(mvs[0].bb, e) for e in sp.exits())
         cx.ob('ORDER', f'{short}::set_params', ok, f'{short}: the new parameter vector is stored first and the caches are refreshed afterwards, on every path', where=sp.file)
+        # ---------------------------------------------------------------- params() reads back what set_params stored
+        pb = cx.fn(f'{P}::params')
+        if pb:
+            cx.expect('EXPR', f'{short}::params', cx.retval(pb), '(field x (field params (param self)))',
+                      f'{short}: params() returns the stored parameter vector itself - the one set_params wrote - so the solver and the problem agree on the parametrisation '
+                      '(a vector re-derived from the transform is a different parametrisation of the same pose)', where=pb.file)
         # ---------------------------------------------------------------- refresh covers the read set
         reads = (self_fields_read(cx, res) | self_fields_read(cx, jac))
         a = cx.adt(P)
